@@ -603,11 +603,36 @@ class An:
             if a == 'closure':
                 return ('closure', rv['closure'], fields)
             if a == 'tuple':
+                # `let (x, y) = f(); (x, y)` is f()
+                if len(fields) >= 2 and all(f[0] == 'field' and f[1] == str(i) for i, f in enumerate(fields)) and \
+                        all(f[2] == fields[0][2] for f in fields) and fields[0][2][0] == 'call' and \
+                        self._tuple_arity(fields[0][2]) == len(fields):
+                    return fields[0][2]
                 return ('agg', 'tuple', 'tuple', fields, tuple(str(i) for i in range(len(fields))))
             if a == 'array':
                 return ('agg', 'array', 'array', fields, tuple(str(i) for i in range(len(fields))))
             return ('agg', a, a, fields, ())
         return ('unknown', 'rvalue ' + k)
+
+    def _tuple_arity(self, callterm):
+        """arity of the tuple a call term returns (from the destination type of its call terminator), or None"""
+        try:
+            t = self.body.blocks[callterm[3]]['term']
+            ty = t.get('dest_ty', '')
+        except Exception:
+            return None
+        if not (ty.startswith('(') and ty.endswith(')')):
+            return None
+        depth = 0
+        n = 1
+        for ch in ty[1:-1]:
+            if ch in '<([':
+                depth += 1
+            elif ch in '>)]':
+                depth -= 1
+            elif ch == ',' and depth == 0:
+                n += 1
+        return n
 
     def val_call(self, t, site):
         c = callee_of(t)
@@ -648,6 +673,8 @@ class An:
                 if y[0] == 'call' and y[1].endswith('::iter') and 'slice' in y[1] and len(y[2]) == 1:
                     # s.iter().copied().collect::<Vec<_>>() is s.to_vec()
                     return ('call', 'std::slice::<impl [T]>::to_vec', (y[2][0],), site[0], self.callee_info(t))
+        if path == 'core::num::<impl u8>::to_be_bytes' and len(args) == 1:
+            return ('agg', 'array', 'array', (args[0],), ('0',))          # the one-byte encoding of a u8 is [x]
         if name in ('split_at_mut', 'split_at') and len(args) == 2 and 'slice' in path and not is_local_impl:
             # (&mut x[..k], &mut x[k..]): two views, so that writes through either half are writes to x at that range
             return ('agg', 'tuple', 'tuple', (mk_slice(args[0], None, args[1]), mk_slice(args[0], args[1], None)), ('0', '1'))
